@@ -8,9 +8,9 @@ package checks
 // `buf.Load<T>(expr)`, `buf.Store(expr, v)`, `buf.InterlockedAdd(expr, ...)`) and compares the
 // byte ranges with the WGSL offsets:
 //   * every probed leaf must be covered by some load on its buffer;
-//   * every load must cover at least one probed leaf;
+//   * every load must cover at least one leaf of the value (whole members are copied too);
 //   * every probed leaf of the read_write buffer must have a store that starts at its offset and
-//     has exactly its width; every store must start at the offset of a probed leaf.
+//     has exactly its width; every store must start at the offset of a leaf of the value.
 // Addresses that are not constant expressions, and template types the table does not know, are
 // counted as skipped.
 
@@ -230,7 +230,7 @@ type c07xLeaf struct {
 }
 
 // (messages: failure class, then " :: " and the particulars, which do not enter the violation key)
-func c07xHLSLAddresses(acc []hlslAccess, probes []c07xLeaf, rw bool, bad func(string)) {
+func c07xHLSLAddresses(acc []hlslAccess, probes, all []c07xLeaf, rw bool, bad func(string)) {
 	for _, p := range probes {
 		cov := false
 		for _, a := range acc {
@@ -264,24 +264,24 @@ func c07xHLSLAddresses(acc []hlslAccess, probes []c07xLeaf, rw bool, bad func(st
 	for _, a := range acc {
 		if a.load {
 			cov := false
-			for _, p := range probes {
+			for _, p := range all {
 				if a.addr <= p.Off && p.Off+p.Width <= a.addr+a.size {
 					cov = true
 				}
 			}
 			if !cov && !a.store {
-				bad("load: a Load covers no probed leaf :: " + strconv.Itoa(a.size) + " bytes at " + strconv.Itoa(a.addr))
+				bad("load: a Load covers no leaf of the value :: " + strconv.Itoa(a.size) + " bytes at " + strconv.Itoa(a.addr))
 			}
 		}
 		if a.store {
 			at := false
-			for _, p := range probes {
+			for _, p := range all {
 				if a.addr == p.Off {
 					at = true
 				}
 			}
 			if !at {
-				bad("store: a Store is not at the WGSL offset of any probed leaf :: at " + strconv.Itoa(a.addr))
+				bad("store: a Store is not at the WGSL offset of any leaf of the value :: at " + strconv.Itoa(a.addr))
 			}
 		}
 	}
